@@ -66,6 +66,9 @@ type timestampOracle struct {
 	// updateMu serializes UpdateTimestamp and resetUserTimestamp, so that a time window
 	// computed from a stale reading can never be saved after a newer, larger one.
 	updateMu sync.Mutex
+	// saveUncertain is set when a window save returned an error: the write may have
+	// been applied all the same. Guarded by updateMu.
+	saveUncertain bool
 	// last timestamp window stored in etcd
 	lastSavedTime atomic.Value // stored as time.Time
 	suffix        int
@@ -174,6 +177,7 @@ func (t *timestampOracle) saveTimestamp(leadership *election.Leadership, ts time
 		Then(clientv3.OpPut(key, string(data))).
 		Commit()
 	if err != nil {
+		t.saveUncertain = true
 		return errs.ErrEtcdKVPut.Wrap(err).GenWithStackByCause()
 	}
 	if !resp.Succeeded {
@@ -183,8 +187,29 @@ func (t *timestampOracle) saveTimestamp(leadership *election.Leadership, ts time
 	return nil
 }
 
+// refreshLastSavedTime re-reads the stored time window after a save whose outcome is
+// unknown, so that the next window is not computed from a stale, smaller copy (which
+// could store a window below the one that did reach etcd).
+func (t *timestampOracle) refreshLastSavedTime() error {
+	if !t.saveUncertain {
+		return nil
+	}
+	last, err := t.loadTimestamp()
+	if err != nil {
+		return err
+	}
+	if cur, ok := t.lastSavedTime.Load().(time.Time); !ok || typeutil.SubRealTimeByWallClock(last, cur) > 0 {
+		t.lastSavedTime.Store(last)
+	}
+	t.saveUncertain = false
+	return nil
+}
+
 // SyncTimestamp is used to synchronize the timestamp.
 func (t *timestampOracle) SyncTimestamp(leadership *election.Leadership) error {
+	t.updateMu.Lock()
+	defer t.updateMu.Unlock()
+	t.saveUncertain = false
 	tsoCounter.WithLabelValues("sync", t.dcLocation).Inc()
 
 	failpoint.Inject("delaySyncTimestamp", func() {
@@ -239,6 +264,9 @@ func (t *timestampOracle) isInitialized() bool {
 func (t *timestampOracle) resetUserTimestamp(leadership *election.Leadership, tso uint64, ignoreSmaller bool) error {
 	t.updateMu.Lock()
 	defer t.updateMu.Unlock()
+	if err := t.refreshLastSavedTime(); err != nil {
+		return err
+	}
 	t.tsoMux.Lock()
 	defer t.tsoMux.Unlock()
 	if !leadership.Check() {
@@ -301,6 +329,9 @@ func (t *timestampOracle) resetUserTimestamp(leadership *election.Leadership, ts
 func (t *timestampOracle) UpdateTimestamp(leadership *election.Leadership) error {
 	t.updateMu.Lock()
 	defer t.updateMu.Unlock()
+	if err := t.refreshLastSavedTime(); err != nil {
+		return err
+	}
 	prevPhysical, prevLogical := t.getTSO()
 	tsoGauge.WithLabelValues("tso", t.dcLocation).Set(float64(prevPhysical.UnixNano() / int64(time.Millisecond)))
 	tsoGap.WithLabelValues(t.dcLocation).Set(float64(time.Since(prevPhysical).Milliseconds()))
